@@ -43,3 +43,43 @@ package auth
 //@   ensures len(u.pushMatchers) == nonEmptyMasks(u.PushAccess) && len(u.pullMatchers) == nonEmptyMasks(u.PullAccess)
 //@   ensures !(u.Admin && old(len(src.PullAccess)) == 0) ==> sameStr(u.PullAccess, old(src.PullAccess))
 //@   ensures !(u.Admin && old(len(src.PushAccess)) == 0) ==> sameStr(u.PushAccess, old(src.PushAccess))
+
+// ---- user table (C18): edits keep the pending-change lists consistent with the table ---------------------------
+//@ extern func (mu *sync.RWMutex) Lock() ()
+//@   requires !held(mu)
+//@   modifies held(mu)
+//@   ensures held(mu)
+//@ extern func (mu *sync.RWMutex) Unlock() ()
+//@   requires held(mu)
+//@   modifies held(mu)
+//@   ensures !held(mu)
+//@ spec func listOK(l []*User) bool = forall(i, 0, len(l), l[i] != nil)
+//@ spec func mgrOK(m *manager) bool = m != nil && !held(&m.lock) && m.m != nil && mapValuesNonNil(m.m) && listOK(m.l) && listOK(m.saves) && listOK(m.removes) && distinctBacking(m.l, m.saves) && distinctBacking(m.l, m.removes) && distinctBacking(m.saves, m.removes) && len(m.l) <= 1<<30 && len(m.saves) <= 1<<30 && len(m.removes) <= 1<<30
+
+// Del: a user that is in the table is removed from it and recorded in the pending-removal list exactly once
+// (so that the next Flush persists the deletion), whether or not an update of it was pending; an unknown name changes nothing
+//@ func (m *manager) Del(userName string) (err error)
+//@   requires mgrOK(m)
+//@   modifies held(&m.lock), m.l, m.l[:cap(m.l)], m.saves, m.saves[:cap(m.saves)], m.removes, m.removes[:cap(m.removes)], mapAll(m.m), all()
+//@   local rangeindex int
+//@   loop 0: modifies
+//@   loop 0: invariant -1 <= rangeindex && rangeindex <= len(m.l) && sameHdr(m.l, old(m.l))
+//@   loop 1: modifies
+//@   loop 1: invariant -1 <= rangeindex && rangeindex <= len(m.saves) && sameHdr(m.saves, old(m.saves))
+//@   ensures err == nil && !held(&m.lock)
+//@   ensures old(m.m[final(userName)]) != nil ==> m.m[final(userName)] == nil && len(m.removes) == old(len(m.removes)) + 1 && m.removes[old(len(m.removes))] == old(m.m[final(userName)])
+//@   ensures old(m.m[final(userName)]) != nil ==> len(m.l) <= old(len(m.l)) && len(m.l) >= old(len(m.l)) - 1 && len(m.saves) <= old(len(m.saves))
+//@   ensures old(m.m[final(userName)]) == nil ==> len(m.removes) == old(len(m.removes)) && len(m.saves) == old(len(m.saves)) && len(m.l) == old(len(m.l))
+
+// Flush: hands the full list and the pending changes to the provider; the pending lists are cleared only on success
+//@ extern func (p UserProvider) Flush(full []*User, saves []*User, removes []*User) (err error)
+//@   modifies ghostInt(p, "flushes")
+//@   ensures ghostInt(p, "flushes") == old(ghostInt(p, "flushes")) + 1
+//@ func (m *manager) Flush() (err error)
+//@   requires m != nil && !held(&m.lock) && m.provider != nil && len(m.saves) <= 1<<30 && len(m.removes) <= 1<<30
+//@   modifies held(&m.lock), m.saves, m.removes, ghostInt(m.provider, "flushes")
+//@   ensures !held(&m.lock)
+//@   ensures old(len(m.saves)) + old(len(m.removes)) == 0 ==> err == nil && ghostInt(m.provider, "flushes") == old(ghostInt(m.provider, "flushes"))
+//@   ensures old(len(m.saves)) + old(len(m.removes)) != 0 ==> ghostInt(m.provider, "flushes") == old(ghostInt(m.provider, "flushes")) + 1
+//@   ensures err == nil ==> len(m.saves) == 0 && len(m.removes) == 0
+//@   ensures err != nil ==> len(m.saves) == old(len(m.saves)) && len(m.removes) == old(len(m.removes))
